@@ -343,6 +343,14 @@ func (c *Ctx) Finish(rule string) int {
 		fmt.Printf("OK property=%s tier=%s evaluations=%d distinct=%d exhaustive=%v wall=%.1fs\n", c.Prop, c.Tier, evals, distinct, exhaustive, time.Since(c.Start).Seconds())
 		return 0
 	}
+	{
+		var cls []string
+		for k, n := range c.violClass {
+			cls = append(cls, fmt.Sprintf("%s=%d", k, n))
+		}
+		sort.Strings(cls)
+		fmt.Fprintf(os.Stderr, "[%s] violation classes: %s\n", c.Prop, strings.Join(cls, " "))
+	}
 	dir := filepath.Join(home(), "replays", c.Prop)
 	os.MkdirAll(dir, 0o755)
 	for i, v := range c.violations {
